@@ -8,9 +8,8 @@ use quote::{format_ident, quote};
 use crate::{
     convert::STD_NUM_NONZERO_PREFIX,
     type_entry::{
-        EnumTagType, StructProperty, StructPropertyRename, StructPropertyState, TypeEntry,
-        TypeEntryDetails, TypeEntryEnum, TypeEntryNative, TypeEntryNewtype, TypeEntryStruct,
-        Variant, VariantDetails, WrappedValue,
+        EnumTagType, StructProperty, StructPropertyRename, TypeEntry, TypeEntryDetails,
+        TypeEntryEnum, TypeEntryNative, TypeEntryNewtype, TypeEntryStruct, Variant, VariantDetails,
     },
     TypeId, TypeSpace,
 };
@@ -436,13 +435,6 @@ fn value_for_struct_props(
         if let Some(value) = map.get(name) {
             let type_entry = type_space.id_to_entry.get(&prop.type_id).unwrap();
             let prop_value = type_entry.output_value(type_space, value, scope)?;
-
-            Some(quote! { #name_ident: #prop_value })
-        } else if let StructPropertyState::Default(WrappedValue(prop_default)) = &prop.state {
-            // The member is absent from the value, but has a default of its
-            // own: that is its value rather than `Default::default()`.
-            let type_entry = type_space.id_to_entry.get(&prop.type_id).unwrap();
-            let prop_value = type_entry.output_value(type_space, prop_default, scope)?;
 
             Some(quote! { #name_ident: #prop_value })
         } else {
